@@ -11,12 +11,12 @@ def run(ck, replay=None):
     ck.cov['rule'] = ('TLC enumerates every block of <= %d commands (exit numbers {0,1,3}, joined by ; newline && || |) in modes try and trypipe, '
                       'checks that the transcribed scheduler loops (runModeTry/runModeTryPipe: wait points, || skipping, abort) agree with the '
                       'pipeline rule of the property on all of them, and exports the table; every block is executed by the real interpreter as '
-                      '`try {}` / `trypipe {}` and as a function starting with `runmode try|trypipe function`; commands that ran and the exit '
+                      '`try {}` / `trypipe {}` and as a function starting with `runmode try|trypipe function`, and as a try (trypipe) block nested in a function whose runmode directive names the other mode; commands that ran and the exit '
                       'number are compared.  non-trivial = at least one &&/|| and one non-zero exit; distinct = different (mode, block).' % maxlen)
     ck.assumptions += ['blocks where a || alternative heads a longer pipeline are executed but not judged (the property speaks of alternatives as commands)',
                        'tryerr/trypipeerr are not part of the property']
     cases = L.gen_cases(ck, maxlen, ['try', 'trypipe'])
     ck.cov['exhaustive'] = True
-    n = L.run_table(ck, cases, ['top', 'fn'])
+    n = L.run_table(ck, cases, ['top', 'fn', 'nest'])
     if not ck.violations and n < 100:
         raise common.Infra('vacuous: %d non-trivial programs' % n)
